@@ -53,7 +53,8 @@ TRUSTED = (
     "translator tools/translate_vrh.py (fail-closed ast whitelist: cIJ/sIJ accessors, the nine averages, + - * /, "
     "numeric literals read as exact decimals, numpy.sqrt, the exact pint call shape "
     "units.Quantity(e, units.rydberg).to(units.kg * units.km ** 2 / units.s ** 2).magnitude read as e * ry, "
-    "scipy's 'Avogadro constant' read as the model's N_A, single-assignment locals (also tuple form), calls of "
+    "scipy's 'Avogadro constant' / scipy.constants.Avogadro read as the model's N_A and unit expressions compared up to "
+    "the abelian-group laws of pint units (both re-checked per run in the installed scipy / pint), single-assignment locals (also tuple form), calls of "
     "uniquely bound plain helper functions inlined by let-binding their parameters (helper body inside the same "
     "grammar, sees only its parameters); static.py: c[:, I, J] reads, column stores, literal-tuple loops unrolled, "
     "fill-loop key expression evaluated on all 36 cells and checked in Coq, numpy.linalg.inv only of the whole "
@@ -76,6 +77,46 @@ def lemma_at(path: Path, out: str) -> str:
         if mm:
             return mm.group(2)
     return ""
+
+
+def runtime_meaning_checks(res):
+    """The translator reads named constants / pint unit expressions of calculator.py as the model's N_A / as the unit
+    kg km^2 s^-2 (up to the group laws of units).  Check, in the installed scipy / pint, that they mean that:
+    returns a list of problems (empty = fine)."""
+    bad = []
+    try:
+        import scipy.constants
+        model_na = float(602214076 * 10 ** 15)           # VRHModel.N_A, exact in binary64
+        for c in sorted(res.consts):
+            if c == T.AVOGADRO:
+                val = scipy.constants.physical_constants["Avogadro constant"][0]
+            elif c == T.AVOGADRO_ATTR:
+                val = scipy.constants.Avogadro
+            else:
+                bad.append("unknown constant %s" % c)
+                continue
+            if float(val) != model_na:
+                bad.append("%s = %r in the installed scipy, the model's N_A is %r" % (c, val, model_na))
+        if res.units:
+            from cij.util import units
+
+            def ev(t):
+                if t[0] == "u":
+                    return getattr(units, t[1])
+                if t[0] == "pow":
+                    return ev(t[1]) ** t[2]
+                return ev(t[1]) * ev(t[2]) if t[0] == "mul" else ev(t[1]) / ev(t[2])
+            ref_from, ref_to = units.rydberg, units.kg * units.km ** 2 / units.s ** 2
+            ref = units.Quantity(1.0, ref_from).to(ref_to).magnitude
+            for src_txt, dst_txt, src_tree, dst_tree in res.units:
+                u_from, u_to = ev(src_tree), ev(dst_tree)
+                if not (u_from == ref_from and u_to == ref_to):
+                    bad.append("pint: %s -> %s is not the unit pair rydberg -> kg km^2 / s^2" % (src_txt, dst_txt))
+                elif units.Quantity(1.0, u_from).to(u_to).magnitude != ref:
+                    bad.append("pint: conversion factor of %s -> %s differs from the reference spelling" % (src_txt, dst_txt))
+    except Exception as e:      # noqa: fail closed
+        bad.append("%s: %s" % (type(e).__name__, e))
+    return bad
 
 
 def static_tie(ctx, rd: Path, groups=tuple(CALCULATOR_GROUPS)):
@@ -116,6 +157,14 @@ def static_tie(ctx, rd: Path, groups=tuple(CALCULATOR_GROUPS)):
                     why["getattr-dispatch"] = "%s: no cIJ/sIJ accessor is used by any translated formula" % T.CALC
             if "pressure-delegation" in calc_groups and "pressure" in res.errors and "pressure-delegation" not in why:
                 why["pressure-delegation"] = str(res.errors["pressure"])
+            if "velocities" in calc_groups and "velocities" not in why:
+                probs = runtime_meaning_checks(res)
+                ctx.obligation("static tie: constants / units named in calculator.py mean the model's in the installed "
+                               "scipy / pint (%s; %s)" % (", ".join(sorted(res.consts)) or "-",
+                                                          "; ".join("%s -> %s" % (a, b) for a, b, _, _ in res.units) or "-"),
+                               "measured", not probs, "; ".join(probs))
+                if probs:
+                    why["velocities"] = "named constant / unit check: " + "; ".join(probs)
     if "static-vrh" in groups:
         try:
             txt, info = T.translate_static((REPO / T.STATIC).read_text())
